@@ -247,6 +247,8 @@ structure NTInv (E : Env U π) (s : St U π) (nt : UNT U) : Prop where
   heap_le : ∀ x, Popped s nt x → ∀ e, e ∈ s.heapOf nt → LE E nt x e.2
   /-- a recorded successor is not better than its predecessor -/
   sorted : ∀ k x, AList.lookup (some k) (s.succOf nt) = some x → LE E nt k x
+  /-- the non-terminals of the alternatives have been initialised and queried once -/
+  closed : ∀ F v w, (v, w) ∈ altsOf E nt F → ∀ a, a ∈ v → ∃ x, AList.lookup none (s.succOf a) = some x
 
 /-- nothing was done for `nt` yet -/
 def Uninit (s : St U π) (nt : UNT U) : Prop :=
@@ -292,7 +294,7 @@ def Below (E : Env U π) (rank : UNT U → Nat) (r : Nat) (s : St U π) : Prop :
 
 theorem NTInv.transfer {E : Env U π} {s s' : St U π} {nt : UNT U} (h : NTInv E s nt) (hs : Same s s' nt)
     (hst : Stable s s') : NTInv E s' nt := by
-  refine ⟨by rw [hs.init]; exact h.init, by rw [hs.succ]; exact h.chain, by rw [hs.succ]; exact h.keys_nodup, ?_, ?_, ?_, ?_⟩
+  refine ⟨by rw [hs.init]; exact h.init, by rw [hs.succ]; exact h.chain, by rw [hs.succ]; exact h.keys_nodup, ?_, ?_, ?_, ?_, ?_⟩
   · obtain ⟨m, h1, h2⟩ := h.first
     refine ⟨m, by rw [hs.maxNT]; exact h1, ?_⟩
     rw [hs.succ, hs.heap]; exact h2
@@ -308,6 +310,9 @@ theorem NTInv.transfer {E : Env U π} {s s' : St U π} {nt : UNT U} (h : NTInv E
   · intro k x hk
     rw [hs.succ] at hk
     exact h.sorted k x hk
+  · intro F v w hm a ha
+    obtain ⟨x, hx⟩ := h.closed F v w hm a ha
+    exact ⟨x, hst _ _ _ hx⟩
 
 theorem CInv.transfer {E : Env U π} {rank : UNT U → Nat} {s s' : St U π} {nt : UNT U} {e : Option Prog} {i : Nat}
     (h : CInv E rank s nt e i) (hs : Same s s' nt) (hst : Stable s s')
